@@ -207,3 +207,28 @@ package types
 //@ global HighestBeaconIDKey abstracts bea_key(HighestBeaconIDKey) == kBHighest
 //@ global RegisteredBeaconPrefix abstracts bea_prefix(RegisteredBeaconPrefix) == pAllBeacons
 //@ global RecordedBeaconTimestampPrefix abstracts bea_prefix(RecordedBeaconTimestampPrefix) == pAllTs
+
+// ---------------------------------------------------------------- signers (C13): the transaction must be signed by exactly the party the operation belongs to
+
+//@ func MsgRegisterBeacon.GetSigners(msg) (signers)
+//@   props C13
+//@   requires validBech32(msg.Owner)
+//@   nopanic
+//@   ensures len(signers) == 1 && signers[0] == addrOf(msg.Owner)
+
+//@ func MsgRecordBeaconTimestamp.GetSigners(msg) (signers)
+//@   props C13
+//@   requires validBech32(msg.Owner)
+//@   nopanic
+//@   ensures len(signers) == 1 && signers[0] == addrOf(msg.Owner)
+
+//@ func MsgPurchaseBeaconStateStorage.GetSigners(msg) (signers)
+//@   props C13
+//@   requires validBech32(msg.Owner)
+//@   nopanic
+//@   ensures len(signers) == 1 && signers[0] == addrOf(msg.Owner)
+
+// baseapp, authz, gov and group run ValidateBasic before any handler (assumed); the handler's contract relies on it.
+//@ func MsgRecordBeaconTimestamp.ValidateBasic(msg) (err)
+//@   props C01 C07
+//@   ensures err == nil ==> validBech32(msg.Owner) && msg.BeaconId != 0 && msg.SubmitTime != 0 && 1 <= len(msg.Hash) && len(msg.Hash) <= 66
